@@ -47,7 +47,8 @@ impl Obs {
         // signature class: every private message that is rejected after its message key was derived
         // shares one root cause (the key is consumed when handed out), whatever rejects it later
         let is_private = MlsMessage::from_bytes(bytes).map(|x| x.wire_format() == mls_rs::WireFormat::PrivateMessage).unwrap_or(false);
-        let sigclass: String = if is_private { "private_message".into() } else { what.to_string() };
+        // (a message beyond the look-ahead window is refused before any key is handed out: not that root cause)
+        let sigclass: String = if is_private && what != "application_beyond_the_window" { "private_message".into() } else { what.to_string() };
         let t = w.now();
         self.injections += 1;
         let flags = {
@@ -195,7 +196,30 @@ impl Observer for Obs {
         let m = members[pick(op[1], members.len())];
         let others: Vec<usize> = members.iter().copied().filter(|x| *x != m).collect();
         let s = others[pick(op[3], others.len())];
-        match pick(op[2], 10) {
+        match pick(op[2], 11) {
+            10 => {
+                // a genuine application message far beyond the receiver's look-ahead window (made by a discarded clone of the
+                // sender, so the sender's real ratchet stays where it is): rejected, and nothing may have moved
+                w.flush(op[4])?;
+                if w.parties[s].g().commit_required() || w.parties[s].g().current_epoch() != w.parties[m].g().current_epoch() {
+                    return Ok(());
+                }
+                let mut clone = w.parties[s].g().clone();
+                let mut last = None;
+                let gap = 1026 + (op[4] % 3) as usize;
+                for _ in 0..gap {
+                    match guard(|| clone.encrypt_application_message(b"far", vec![])) {
+                        Ok(x) => last = Some(x),
+                        Err(e) if e.is_panic() => return Err(panic_failure(P, "encrypt_application_message", &e)),
+                        Err(_) => return Ok(()),
+                    }
+                }
+                if let Some(msg) = last {
+                    let bytes = msg.to_bytes().expect("enc");
+                    self.try_rejected(w, m, &bytes, "application_beyond_the_window", None)?;
+                    self.ev.class("application_beyond_the_window");
+                }
+            }
             8 | 9 => {
                 // A ReInit commit built by a discarded clone of s (so the group goes on): corrupted copies, and a copy with a
                 // wrong confirmation tag under a fresh membership tag, must be rejected without a trace: a rejected
